@@ -991,7 +991,9 @@ def adaptive_dates_case(draw):
     el = draw(go.elements(hyperbolic=False, emax_ell=0.75, rp_range=(1.03, 2.0)))
     return dict(h=h, out=out, span=span, method=draw(st.sampled_from(["rkf54", "dopri54"])), el=el,
                 k0=draw(st.sampled_from([0, 0, 3, 11])), stop_as=draw(st.sampled_from(["date", "timedelta"])),
-                route=draw(st.sampled_from(["iter", "iter", "ephemeris", "ephem"])))
+                route=draw(st.sampled_from(["iter", "iter", "ephemeris", "ephem"])),
+                # the same grid handed over as dates=Date.range(start, stop, step, inclusive=True)
+                dates_as=draw(st.sampled_from(["start-stop-step", "start-stop-step", "range"])))
 
 
 def check_adaptive_dates(case):
@@ -1009,11 +1011,15 @@ def check_adaptive_dates(case):
     stop = start + span * US
     kw = dict(start=mkdate(start), step=timedelta(seconds=out),
               stop=timedelta(seconds=span) if case["stop_as"] == "timedelta" else mkdate(stop))
+    if case.get("dates_as") == "range":
+        from beyond.dates import Date
+
+        kw = dict(dates=Date.range(mkdate(start), mkdate(stop), timedelta(seconds=out), inclusive=True))
     stream = {"iter": orb.iter, "ephemeris": orb.ephemeris, "ephem": lambda **k: iter(orb.ephem(**k))}[case["route"]](**kw)
     got = list(stream)
     want = model_range(start, stop, out * US)
     ts = [us_of(o.date) for o in got]
-    what = (f"KeplerNum({h} s, {case['method']}).{case['route']}(start=+{start // US} s, stop=+{stop // US} s, step={out} s"
+    what = (f"KeplerNum({h} s, {case['method']}).{case['route']}({'dates=Date.range(' if case.get('dates_as') == 'range' else ''}start=+{start // US} s, stop=+{stop // US} s, step={out} s"
             f"{' = the propagator step' if out == h else ''})")
     if len(ts) > len(want) and all(abs(a - b) <= 1 for a, b in zip(ts, want)) and all(
             stop < t <= stop + h * US + 1 for t in ts[len(want):]):
